@@ -151,6 +151,14 @@ impl<T: Write + Read + Seek> E57Writer<T> {
         let xml = transformer(xml)?;
         let xml_bytes = xml.as_bytes();
         let xml_length = xml_bytes.len();
+
+        // The reader of this library does not accept bigger XML sections
+        if xml_length > crate::e57_reader::MAX_XML_SIZE {
+            Error::not_implemented(format!(
+                "XML sections larger than {} bytes are not supported",
+                crate::e57_reader::MAX_XML_SIZE
+            ))?
+        }
         let xml_offset = self.writer.physical_position()?;
         self.writer
             .write_all(xml_bytes)
